@@ -135,6 +135,16 @@ class OrcaPipeline:
     def walk(self, edges, shape, proto, sizes="small", keylen=0, workers=8):
         r = self.run
         out = r.path("walk%d.json" % r._next())
+        cap = os.environ.get("VERIF_CAPTURE")
+        if cap:
+            cd = os.path.join(cap, "%s-walk-%d" % (r.prop, r._next()))
+            os.makedirs(cd, exist_ok=True)
+            with open(edges) as f, open(os.path.join(cd, "edges.ndjson"), "w") as o:
+                for i, ln in enumerate(f):
+                    if i < 1500:
+                        o.write(ln)
+            with open(os.path.join(cd, "case.json"), "w") as f:
+                json.dump({"kind": "walk", "property": r.prop, "shape": shape, "proto": proto, "sizes": sizes, "keylen": keylen}, f)
         r.run_vh("orca-walk", ["-in", edges, "-out", out, "-cfg", json.dumps(shape), "-proto", proto,
                                "-sizes", sizes, "-seed", r.seed, "-workers", workers, "-keylen", keylen])
         with open(out) as f:
